@@ -319,3 +319,116 @@ Definition ds_selfref : dataset := [
 
 Example ds_selfref_err : is_err (entries_from_rdf F0 97 ds_selfref) = true.
 Proof. vm_compute. reflexivity. Qed.
+
+(* ================= literals are stored verbatim ================= *)
+Lemma convert_other : forall F dt v p, classify dt = DOther -> convert F dt v p = Ok (XStr v).
+Proof. intros F dt v p H. unfold convert. now rewrite H. Qed.
+
+(* the stored value and datatype of an entry depend on the quad's object only ... *)
+Theorem value_function_of_object : forall F prime ds e e' iq iq',
+  fact F prime ds e iq -> fact F prime ds e' iq' -> qo (snd iq) = qo (snd iq') ->
+  e_val e = e_val e' /\ e_dt e = e_dt e'.
+Proof.
+  intros F prime ds e e' iq iq' (_ & _ & _ & _ & _ & Hv) (_ & _ & _ & _ & _ & Hv') Ho.
+  unfold value_of in *. rewrite Ho in Hv. destruct (qo (snd iq')).
+  - destruct Hv as (-> & ->), Hv' as (-> & ->). auto.
+  - contradiction.
+  - destruct Hv as (Hc & ->), Hv' as (Hc' & ->). rewrite Hc in Hc'. inversion Hc'; auto.
+Qed.
+
+(* ... and for every datatype other than boolean / the five integer types / dateTime /
+   double (xsd:string, rdf:langString, custom types) the value is the lexical form itself,
+   character for character: no trimming, no case folding, no normalisation; an IRI object
+   is stored as the IRI *)
+Theorem literals_verbatim : forall F prime ds es,
+  is_map ds -> entries_from_rdf F prime ds = Ok es ->
+  Forall2 (fun e iq =>
+             (forall lex d, qo (snd iq) = NLit lex d -> classify d = DOther ->
+                            e_val e = XStr lex /\ e_dt e = d) /\
+             (forall s, qo (snd iq) = NIri s -> e_val e = XStr s /\ e_dt e = ""))
+          es (value_quads ds).
+Proof.
+  intros F prime ds es Hm H. eapply Forall2_imp; [|eapply entries_exact_fact; eauto].
+  intros e iq (_ & _ & _ & _ & _ & Hv). unfold value_of in Hv. split.
+  - intros lex d Ho Hc. rewrite Ho in Hv. destruct Hv as (Hconv & Hd).
+    rewrite (convert_other F d lex prime Hc) in Hconv. inversion Hconv; subst. auto.
+  - intros s Ho. rewrite Ho in Hv. exact Hv.
+Qed.
+
+Example verbatim_datatypes :
+  classify xsd_string = DOther /\
+  classify "http://www.w3.org/1999/02/22-rdf-syntax-ns#langString" = DOther /\
+  classify "http://ex.org/v#customType" = DOther.
+Proof. repeat split; vm_compute; reflexivity. Qed.
+
+Definition ds_ws : dataset := [
+  ("@default", [
+     Q (NIri "urn:a") "arr" (NLit "x" xs) None; Q (NIri "urn:a") "arr" (NLit " x" xs) None;
+     Q (NIri "urn:a") "arr" (NLit "x " xs) None])].
+Example ds_ws_entries :
+  match entries_from_rdf F0 97 ds_ws with
+  | Ok es => map e_val es = [XStr "x"; XStr " x"; XStr "x "]
+  | _ => False
+  end.
+Proof. vm_compute. reflexivity. Qed.
+
+(* ================= success accounts for every quad ================= *)
+(* when entries are returned, every quad of the dataset contributed: a literal/IRI quad is
+   stated by one of the entries, a blank-object quad is a registered parent (its key has
+   numbered child nodes).  So a dataset with an ill-typed literal, an empty node or a
+   shared node is never merklized with that quad left out. *)
+Theorem every_quad_accounted : forall F prime ds es i q,
+  is_map ds -> entries_from_rdf F prime ds = Ok es -> quad_at ds i = Some q ->
+  (is_value q = true -> exists e, In e es /\ fact F prime ds e (i, q)) /\
+  (is_value q = false -> exists k, key_at ds i = Some k /\ child_nodes ds k <> []).
+Proof.
+  intros F prime ds es i q Hm E Hq.
+  destruct (entries_exact F prime ds es Hm E) as (Hfa & Hbl & _ & _).
+  assert (Hpos : In (i, q) (positions ds)) by now apply positions_in.
+  split; intros Hv.
+  - apply (Forall2_in_r _ _ _ _ Hfa). unfold value_quads. apply filter_In. auto.
+  - destruct (Hbl (i, q) Hpos Hv) as (k & Hk & Hne). exists k. split; [|exact Hne].
+    unfold key_at. rewrite Hq. exact Hk.
+Qed.
+
+(* an ill-typed literal (its lexical form does not convert under its datatype) *)
+Theorem ill_typed_rejected : forall F prime ds i q lex d,
+  is_map ds -> quad_at ds i = Some q -> qo q = NLit lex d ->
+  (forall x, convert F d lex prime <> Ok x) ->
+  forall es, entries_from_rdf F prime ds <> Ok es.
+Proof.
+  intros F prime ds i q lex d Hm Hq Ho Hbad es E.
+  destruct (every_quad_accounted F prime ds es i q Hm E Hq) as (Hval & _).
+  destruct Hval as (e & _ & (_ & _ & _ & _ & _ & Hv)); [unfold is_value; now rewrite Ho|].
+  unfold value_of in Hv. simpl in Hv. rewrite Ho in Hv. destruct Hv as (Hc & _).
+  exact (Hbad _ Hc).
+Qed.
+
+(* in particular a lexical form that is not an integer under one of the integer datatypes
+   ("1.5", "7/2", "1e-1", "abc") *)
+Theorem non_integer_rejected : forall F prime ds i q lex d k,
+  is_map ds -> quad_at ds i = Some q -> qo q = NLit lex d ->
+  classify d = DInt k -> int_from_str lex = None ->
+  forall es, entries_from_rdf F prime ds <> Ok es.
+Proof.
+  intros F prime ds i q lex d k Hm Hq Ho Hc Hn.
+  eapply ill_typed_rejected; eauto. intros x Hx. unfold convert in Hx. rewrite Hc, Hn in Hx. discriminate.
+Qed.
+
+Example fractional_forms_not_integers :
+  int_from_str "1.5" = None /\ int_from_str "7/2" = None /\ int_from_str "1e-1" = None /\
+  int_from_str "-0.25" = None /\ int_from_str "1.5E0" = None.
+Proof. repeat split; vm_compute; reflexivity. Qed.
+
+(* integer lexical forms are read in base ten: leading zeros are not octal *)
+Example decimal_reading :
+  int_from_str "010" = Some 10%Z /\ int_from_str "-0012" = Some (-12)%Z /\
+  int_from_str "0777" = Some 777%Z /\ int_from_str "+5" = Some 5%Z /\
+  int_from_str "00" = Some 0%Z /\ int_from_str "1e1" = Some 10%Z /\ int_from_str "010.0" = Some 10%Z.
+Proof. repeat split; vm_compute; reflexivity. Qed.
+
+Definition ds_frac : dataset := [
+  ("@default", [Q (NIri "urn:a") "count" (NLit "1.5" xsd_integer) None;
+                Q (NIri "urn:a") "name" (NLit "n" xs) None])].
+Example ds_frac_err : is_err (entries_from_rdf F0 97 ds_frac) = true.
+Proof. vm_compute. reflexivity. Qed.
